@@ -275,7 +275,7 @@ fn native_mtrl_parse() {
     println!("NATIVE native_mtrl_parse cases={cases}");
 }
 
-//@unit props=C18 label=B tier=quick native=1 fn=mtrl::Material::from_existing bound="by execution: the legacy and the Dawntrail material of native_mtrl_parse with all tables populated: every truncation; 7 single-byte corruptions per byte of everything outside the colour table rows, and of every 16th byte inside them"
+//@unit props=C18 label=B tier=quick native=1 fn=mtrl::Material::from_existing bound="by execution: the legacy and the Dawntrail material of native_mtrl_parse with all tables populated: every truncation; 7 single-byte corruptions per byte of everything outside the colour table rows, and of every 16th byte inside them (thorough tier: every byte)"
 //@desc damaged materials (truncated anywhere, any count, offset, size, flag, magic or string byte damaged) yield None or a value, never a panic
 #[test]
 fn native_mtrl_damaged_nopanic() {
@@ -286,7 +286,7 @@ fn native_mtrl_damaged_nopanic() {
         let v = nmt_material(sp);
         let head = 16 + sp.textures.len() * 4 + 8 + 200;
         let table = if sp.dawntrail { 2048 } else { 512 };
-        s.sweep(&v, head.min(v.len()), 16, &f);
+        s.sweep(&v, head.min(v.len()), if native_thorough() { 1 } else { 16 }, &f);
         let mut w = v.clone();
         for i in (head + table).min(v.len())..v.len() { let o = v[i]; for c in [0u8, 1, 0x7F, 0x80, 0xFF, o.wrapping_add(1), o.wrapping_sub(1)] { if c != o { w[i] = c; s.run(&f, &w, &format!("byte {i} changed from {o:#04x} to {c:#04x}")); } } w[i] = o; }
     }
